@@ -162,7 +162,7 @@ def main(ck, tier, w):
                              {'start': s_, 'callback': cb, 'observed': r.brief(), 'tags': []})
 
     # --- more than 2^16 blocks (heights, record counts and positions are 32/64-bit quantities)
-    NL = 66000
+    NL = 132000         # (more than 2^17 blocks delivered in one run, one of the runs with --verify)
     lspk = btc.p2pkh(b'\x09' * 20)
     lblocks = datadir.linear_chain(NL, txs_fn=lambda h: [btc.coinbase(h, lspk if h % 500 else btc.p2pkh(h.to_bytes(4, 'big') * 5))])
     ld = datadir.simple_dir(w.sub('dd'), lblocks, 'bitcoin').write()
@@ -172,8 +172,8 @@ def main(ck, tier, w):
         import shutil
         cl = w.sub('cl')
         shutil.copytree(ld, cl)       # LevelDB locks the index: one copy per concurrent run
-        return c, run.run_parser(cl, cb, dump=w.mk('out') if cb in FILECB else None, start=s_, end=e_, timeout=900)
-    for (cb, s_, e_), r in chains.pmap(lrun, [('csvdump', 65530, None), ('csvdump', 65534, 65538), ('simplestats', None, None), ('unspentcsvdump', None, None),
+        return c, run.run_parser(cl, cb, verify=(cb == 'simplestats'), dump=w.mk('out') if cb in FILECB else None, start=s_, end=e_, timeout=900)
+    for (cb, s_, e_), r in chains.pmap(lrun, [('csvdump', 131060, None), ('csvdump', 65534, 65538), ('simplestats', 1, None), ('unspentcsvdump', None, None),
                                                ('balances', 32767, 65537)], 5):
         ck.evals()
         ck.distinct(('long', cb, s_, e_))
@@ -191,8 +191,8 @@ def main(ck, tier, w):
                           for f in exp if r.files.get('%s-%d-%d.csv' % (f, lo, hi)) != exp[f]]
             elif cb == 'simplestats':
                 st = chains.parse_stats(r.stdout)
-                if (st.get('blocks'), st.get('txs')) != (NL, NL):
-                    probs.append('simplestats counted %s blocks / %s transactions, expected %d' % (st.get('blocks'), st.get('txs'), NL))
+                if (st.get('blocks'), st.get('txs')) != (hi - lo + 1, hi - lo + 1):
+                    probs.append('simplestats counted %s blocks / %s transactions, expected %d' % (st.get('blocks'), st.get('txs'), hi - lo + 1))
             else:
                 pre = 'unspent' if cb == 'unspentcsvdump' else 'balances'
                 rows = set(r.files.get('%s-%d-%d.csv' % (pre, lo, hi), b'').decode('utf-8', 'replace').splitlines()[1:])
